@@ -220,3 +220,92 @@ Example ex_codec :
   let r := {| d_epoch := 7; d_bfl := 2; d_key := repeat 171%N 32; d_att := 3; d_off := 2 ^ 63 - 1; d_size := 5 |} in
   length (encode 99 r) = 66 /\ decode 99 (encode 99 r) = Some r /\ decode 98 (encode 99 r) = None.
 Proof. vm_compute. repeat split; reflexivity. Qed.
+
+(** ** The monitor is silent on the model
+
+    [mon06] (the property as a decidable check on an observation: soundness,
+    frame with at most one victim per reported discard, victims fall back to
+    older locations, victims are not newer than the entry stored, the key
+    stored, exact release, refinement without discards; record round trip)
+    never fires on what the model itself predicts, for every well-formed input
+    [wf06]:
+    - history cases: the operations respect the block window ([wf_ops]: a Put
+      names a block in [lo, hi), PopFront finds a block, kinds are 0..3) --
+      exactly what the harness validates; ANY table size (including 0), keys
+      (equal byte strings under different indices, indices beyond the key
+      list), attempt limits, hash initialisation;
+    - codec cases: only when the monitor compares at all (same seed, no
+      damaged byte): the key has 32 entries and attempt < 2^32, offset and
+      size < 2^64 (epoch id, blocks-from-last and key "bytes" are arbitrary).
+    Every hypothesis is necessary ([monitor_on_model_needs_*]); none of the
+    counterexample inputs is accepted by the harness. *)
+From BBS Require Import Common.Sx Common.SxFactsMA Index.MonSilentKlm Index.MonSilentCodec Run.R06 Run.R06Proofs.
+
+Theorem monitor_silent_on_model : forall inp, wf06 inp -> mon06 inp (run06 inp) = nil.
+Proof. exact mon06_silent. Qed.
+Print Assumptions monitor_silent_on_model.
+
+(** the two new model theorems behind clauses 4 and 5 (any slot function):
+    a key whose location is newer than the one being stored keeps it, so a key
+    whose lookup changes had a location that is not newer; the key stored ends
+    with the newer of (previous, new) or -- only when a discard is reported --
+    with what it had. *)
+Theorem put_keeps_newer_locations :
+  forall (key : Type) (key_eqb : key -> key -> bool), (forall a b, key_eqb a b = true <-> a = b) ->
+  forall (n : nat) (slot : key -> nat -> nat), (forall k a, (slot k a < n)%nat) ->
+  forall (maxGet maxPut : nat) (s : klm key) k l s' o k' p,
+    InvS2 key n slot maxGet s -> valid (lo s) (hi s) l = true ->
+    klm_put key key_eqb slot maxGet maxPut s k l = (s', o) ->
+    lookup key key_eqb slot maxGet s k' = Some p -> older l p = true ->
+    lookup key key_eqb slot maxGet s' k' = Some p.
+Proof. exact put_newer_kept. Qed.
+Print Assumptions put_keeps_newer_locations.
+
+Theorem put_own_key_outcome :
+  forall (key : Type) (key_eqb : key -> key -> bool), (forall a b, key_eqb a b = true <-> a = b) ->
+  forall (n : nat) (slot : key -> nat -> nat), (forall k a, (slot k a < n)%nat) ->
+  forall (maxGet maxPut : nat) (s : klm key) k l s' o,
+    InvS2 key n slot maxGet s -> valid (lo s) (hi s) l = true ->
+    klm_put key key_eqb slot maxGet maxPut s k l = (s', o) ->
+    lookup key key_eqb slot maxGet s' k = Some (newest (lookup key key_eqb slot maxGet s k) l)
+    \/ lookup key key_eqb slot maxGet s' k = lookup key key_eqb slot maxGet s k.
+Proof. exact put_self_or. Qed.
+Print Assumptions put_own_key_outcome.
+
+Example monitor_on_model_needs_put_in_window :
+  let inp := ex_hist 1 [L [A 0; A 0; A 5; A 0; A 1]]%Z in ~ wf06 inp /\ mon06 inp (run06 inp) = [5%Z].
+Proof. exact mon06_needs_put_in_window. Qed.
+Example monitor_on_model_needs_pop_with_block :
+  let inp := ex_hist 0 [L [A 2]; L [A 3]; L [A 0; A 0; A 0; A 0; A 1]]%Z in
+  ~ wf06 inp /\ mon06 inp (run06 inp) = [1%Z; 7%Z].
+Proof. exact mon06_needs_pop_with_block. Qed.
+Example monitor_on_model_needs_known_kinds :
+  let inp := ex_hist 0 [L [A 4]; L [A 0; A 0; A 0; A 0; A 1]]%Z in
+  ~ wf06 inp /\ mon06 inp (run06 inp) = [1%Z; 7%Z].
+Proof. exact mon06_needs_known_kinds. Qed.
+Example monitor_on_model_needs_key_32_bytes :
+  let inp := ex_codec (List.repeat (A 7) 31) 0 0 0 in ~ wf06 inp /\ mon06 inp (run06 inp) = [8%Z].
+Proof. exact mon06_needs_key_32_bytes. Qed.
+Example monitor_on_model_needs_attempt_32_bits :
+  let inp := ex_codec (List.repeat (A 7) 32) (2 ^ 32) 0 0 in ~ wf06 inp /\ mon06 inp (run06 inp) = [8%Z].
+Proof. exact mon06_needs_attempt_32_bits. Qed.
+Example monitor_on_model_needs_offset_64_bits :
+  let inp := ex_codec (List.repeat (A 7) 32) 0 (2 ^ 64) 0 in ~ wf06 inp /\ mon06 inp (run06 inp) = [8%Z].
+Proof. exact mon06_needs_offset_64_bits. Qed.
+Example monitor_on_model_needs_size_64_bits :
+  let inp := ex_codec (List.repeat (A 7) 32) 0 0 (2 ^ 64) in ~ wf06 inp /\ mon06 inp (run06 inp) = [8%Z].
+Proof. exact mon06_needs_size_64_bits. Qed.
+Example wf06_nonvacuous_history :
+  wf06 (L [A 0; A 0; A 2; A 2; A 3; A 7; A 1; L [L [A 1]; L [A 2]; L [A 3]; L [A 1]];
+           L [L [A 0; A 0; A 0; A 0; A 1]; L [A 0; A 1; A 0; A 1; A 1]; L [A 3]; L [A 0; A 2; A 1; A 0; A 1];
+              L [A 1; A 3]; L [A 0; A 3; A 1; A 5; A 2]; L [A 2]; L [A 1; A 0]]]%Z).
+Proof. exact wf06_hist_example. Qed.
+Example wf06_nonvacuous_codec :
+  wf06 (L [A 1; A (2 ^ 40); A (2 ^ 20); L (A 300 :: List.repeat (A 7) 31); A 1; A 2; A 3; A 7; A 7; A 66]%Z).
+Proof. exact wf06_codec_example. Qed.
+
+(** For the judge the driver runs: "agree" implies "no violation". *)
+Theorem judge_agree_implies_no_violation : forall inp obs,
+  wf06 inp -> judged_agree (judge06 inp obs) = true -> judged_violates (judge06 inp obs) = false.
+Proof. exact judge06_agree_not_violates. Qed.
+Print Assumptions judge_agree_implies_no_violation.
